@@ -104,6 +104,14 @@ func (e *Exec) harnessIntrinsic(fn *ssa.Function, args []Value) (Value, bool) {
 			e.unsupported("harness parameter %s not set", concreteStr(e, args[0]))
 		}
 		return i64(int64(v)), true
+	case "vUF32":
+		return e.uninterp(concreteStr(e, args[0]), 32, e.sliceTerms(args[1].(*SliceV))), true
+	case "vUF32x":
+		// uninterpreted function of a 32-bit state and a byte sequence
+		st := asTerm(args[1])
+		ts := e.sliceTerms(args[2].(*SliceV))
+		all := append([]*sym.Term{sym.Extract(st, 31, 24), sym.Extract(st, 23, 16), sym.Extract(st, 15, 8), sym.Extract(st, 7, 0)}, ts...)
+		return e.uninterp(concreteStr(e, args[0]), 32, all), true
 	case "vNote":
 		return nil, true
 	case "vSameObj":
@@ -307,6 +315,21 @@ func tzTerm(a *sym.Term) *sym.Term {
 func (e *Exec) uninterp(name string, w int, args []*sym.Term) *sym.Term {
 	k := e.nondetCount["uf:"+name]
 	e.nondetCount["uf:"+name] = k + 1
+	for _, prev := range e.ufApps[name] {
+		if len(prev.args) != len(args) {
+			continue
+		}
+		identical := true
+		for i := range args {
+			if !sym.Same(args[i], prev.args[i], 4) {
+				identical = false
+				break
+			}
+		}
+		if identical {
+			return prev.res
+		}
+	}
 	v := sym.Var("uf!"+name+"!"+itoa(int64(k)), w)
 	for _, prev := range e.ufApps[name] {
 		if len(prev.args) != len(args) {
